@@ -97,6 +97,10 @@ def _own_programs():
     P["o:dot_general_batch_nonleading"] = (lambda a, b: lax.dot_general(a, b, (((1,), (1,)), ((0, 2), (0, 2)))), [("B", 3, 5, 4), ("B", 3, 5, 7)])
     P["o:dot_general_batch_last"] = (lambda a, b: lax.dot_general(a, b, (((0,), (1,)), ((2,), (0,)))), [sds((3, 4, 5)), sds((5, 3, 7))])
     P["o:einsum_bthd"] = (lambda q, k: jnp.einsum("bthd,bshd->bhts", q, k), [("B", 6, 3, 4), ("B", 7, 3, 4)])
+    # a dtype-changing op BETWEEN a Transpose and its inverse: the pair fold re-annotates the op in the middle
+    P["o:transpose_cast_transpose_sym"] = (lambda x: jnp.transpose(jnp.transpose(x, (0, 2, 3, 1)).astype(jnp.int32), (0, 3, 1, 2)) * 2, [("B", 3, 4, 5)])
+    P["o:transpose_cmp_transpose"] = (lambda x: jnp.transpose(jnp.transpose(x, (0, 2, 3, 1)) > 0.5, (0, 3, 1, 2)) & (x < 2.0), [sds((2, 3, 4, 5))])
+    P["o:transpose_not_cast_transpose"] = (lambda x: jnp.transpose(jnp.logical_not(jnp.transpose(x, (1, 0)) > 0.0).astype(jnp.float32), (1, 0)) + x, [("B", 4)])
     P["o:einsum_cyclic"] = (lambda a, b: jnp.einsum("ijk,kli->jl", a, b), [sds((3, 4, 5)), sds((5, 6, 3))])
     P["o:attention_relayout"] = (lambda q, k, v: jnp.reshape(jnp.transpose(
         jax.nn.softmax(jnp.transpose(q, (0, 2, 1, 3)) @ jnp.transpose(k, (0, 2, 3, 1)) * 0.5, axis=-1) @ jnp.transpose(v, (0, 2, 1, 3)),
@@ -129,7 +133,7 @@ def own_names():
             "o:sym_transpose_chain", "o:sym_broadcast_rows", "o:sym_bias", "o:sym_concat_self", "o:sym_mean_keepdims",
             "o:reshape_add_const", "o:cast_chain", "o:where_cmp", "o:sym_two_aranges", "o:min_sym_const111", "o:x64_narrowing_cast", "o:nchw_sym_spatial_broadcast", "o:nchw_sym_spatial_broadcast_only", "o:nchw_out_sym_spatial", "o:pow_scalar_base", "o:exp2", "o:power_col_base", "o:sym_pow_scalar_base",
             "o:vmap1_tensordot", "o:vmap1_tensordot_static", "o:dot_general_batch_nonleading", "o:dot_general_batch_last", "o:einsum_bthd",
-            "o:einsum_cyclic", "o:attention_relayout", "o:moveaxis_chain", "o:transpose_cyclic_sym", "o:vmap2_matmul", "o:vmap1_einsum",
+            "o:einsum_cyclic", "o:transpose_cast_transpose_sym", "o:transpose_cmp_transpose", "o:transpose_not_cast_transpose", "o:attention_relayout", "o:moveaxis_chain", "o:transpose_cyclic_sym", "o:vmap2_matmul", "o:vmap1_einsum",
             "o:conv_nchw_oihw_to_nhwc", "o:conv_nhwc_hwio", "o:int_bcast"]
 
 
